@@ -396,9 +396,21 @@ func (c *Ctx) checkAbsentName() {
 			if len(absent.Preds) == 1 {
 				for rb := range region {
 					for _, ins := range rb.Instrs {
-						if call, ok := ins.(*ssa.Call); ok && call.Call.IsInvoke() && call.Call.Method.Name() == "AssignString" {
-							if k, ok := call.Call.Args[0].(*ssa.Const); ok && k.Value != nil && constant.StringVal(k.Value) == "" {
-								good = true
+						call, ok := ins.(*ssa.Call)
+						if !ok {
+							continue
+						}
+						if assignsEmptyString(call) {
+							good = true
+						}
+						// a repository helper that builds the empty name
+						if f := call.Call.StaticCallee(); f != nil {
+							if _, isRepo := c.P.PkgOf(f); isRepo {
+								for _, ci := range core.CallsIn(f) {
+									if hc, ok := ci.(*ssa.Call); ok && assignsEmptyString(hc) {
+										good = true
+									}
+								}
 							}
 						}
 					}
@@ -504,4 +516,12 @@ func (c *Ctx) checkOverread() {
 	}
 	r.Floor("M5", n, 1)
 	_ = token.ADD
+}
+
+func assignsEmptyString(call *ssa.Call) bool {
+	if !call.Call.IsInvoke() || call.Call.Method.Name() != "AssignString" || len(call.Call.Args) != 1 {
+		return false
+	}
+	k, ok := call.Call.Args[0].(*ssa.Const)
+	return ok && k.Value != nil && k.Value.Kind() == constant.String && constant.StringVal(k.Value) == ""
 }
